@@ -1,11 +1,21 @@
 use std::fmt;
 use std::collections::HashSet;
+use std::sync::Arc;
 
 use super::ir::{AccessType, Meta, VariableName};
 
 /// A variable use (a variable, component or signal read or write).
+///
+/// Every node caches the uses of all nodes below it, so a use is copied once
+/// for each of its ancestors. The data is shared between the copies, otherwise
+/// the memory needed for an expression grows with the square of its size.
 #[derive(Clone, Hash, PartialEq, Eq)]
 pub struct VariableUse {
+    data: Arc<VariableUseData>,
+}
+
+#[derive(Hash, PartialEq, Eq)]
+struct VariableUseData {
     meta: Meta,
     name: VariableName,
     access: Vec<AccessType>,
@@ -20,29 +30,31 @@ impl VariableUse {
         // the index expressions of the access: with their caches a nested access like
         // `x[x[x[...]]]` would grow exponentially with the nesting depth.
         VariableUse {
-            meta: meta.without_variable_knowledge(),
-            name: name.clone(),
-            access: access.iter().map(AccessType::without_variable_knowledge).collect(),
+            data: Arc::new(VariableUseData {
+                meta: meta.without_variable_knowledge(),
+                name: name.clone(),
+                access: access.iter().map(AccessType::without_variable_knowledge).collect(),
+            }),
         }
     }
 
     pub fn meta(&self) -> &Meta {
-        &self.meta
+        &self.data.meta
     }
 
     pub fn name(&self) -> &VariableName {
-        &self.name
+        &self.data.name
     }
 
     pub fn access(&self) -> &Vec<AccessType> {
-        &self.access
+        &self.data.access
     }
 }
 
 impl fmt::Display for VariableUse {
     fn fmt(&self, f: &mut fmt::Formatter) -> fmt::Result {
-        write!(f, "{}", self.name)?;
-        for access in &self.access {
+        write!(f, "{}", self.name())?;
+        for access in self.access() {
             write!(f, "{access}")?;
         }
         Ok(())
